@@ -14,6 +14,7 @@ pub mod c15;
 pub mod c16;
 pub mod c17;
 pub mod c18;
+pub mod c19;
 pub mod common;
 pub mod par;
 
@@ -46,6 +47,7 @@ pub fn all() -> Vec<Prop> {
         Prop { id: "C16", level: "fault_enumeration", run: c16::run, replay: c16::replay },
         Prop { id: "C17", level: "exploration", run: c17::run, replay: c17::replay },
         Prop { id: "C18", level: "exploration", run: c18::run, replay: c18::replay },
+        Prop { id: "C19", level: "exploration", run: c19::run, replay: c19::replay },
     ]
 }
 
